@@ -201,6 +201,17 @@ def handle (j : Json) : R Json := do
             return Json.mkObj [("bad", jarr [Json.str "class-props", jnat 0, Json.str m])]
     let env := mkEnv t .none
     let mut i := 0
+    -- the datatype objects of the parameters (trees of C01-C03), where the harness could read them: a scaled limit that
+    -- is not a grid value (`exportableB` false) marks the recorded finding `scaled-limit-off-grid`
+    let trees ← match j.getObjVal? "trees" with
+      | .error _ => pure []
+      | .ok a => (← arr a).mapM (fun x => do
+          return (s!"{← fldStr x "m"}:{← fldStr x "a"}", ← Frappy.Drive.C03.dinfoOfJson (← fld x "inst")))
+    let offGrid (ma : String) : Bool := match trees.find? (·.1 == ma) with
+      | some (_, tr) => !tr.exportableB
+      | none => false
+    -- every failing item is reported (one finding must not hide another kind of failure in the same node)
+    let mut bads : List Json := []
     -- requests: report against behaviour
     for s in ← fldArr j "steps" do
       let req ← parseReq (← fld s "req")
@@ -230,11 +241,13 @@ def handle (j : Json) : R Json := do
             | some _ => match kind with
               | .change =>
                 -- which clause failed: the flag, or the described datainfo (a payload it excludes was taken)
-                if probeOKB r1 { pr with clientAccepts := true } then "datainfo-not-honoured" else "flag-not-honoured"
+                if probeOKB r1 { pr with clientAccepts := true } then
+                  cond (offGrid s!"{m}:{a}") "datainfo-not-honoured:scaled-limit-off-grid" "datainfo-not-honoured"
+                else "flag-not-honoured"
               | .read => "constant-not-read"
               | .do_ => "command-datainfo-not-honoured"
               | _ => "other"
-          return Json.mkObj [("bad", jarr [Json.str what, jnat i, Json.str s!"{m}:{a}"])]
+          bads := bads ++ [jarr [Json.str what, jnat i, Json.str s!"{m}:{a}"]]
       i := i + 1
     -- activate requests
     i := 0
@@ -243,22 +256,24 @@ def handle (j : Json) : R Json := do
       let a ← fldStr s "a"
       let pr : Probe JJ VV := ⟨.activate, m, a, ← parseReply (← fld s "reply"), [], ← fldBool s "subsChanged", false, false, false⟩
       if !(probeOKB r1 pr) then
-        return Json.mkObj [("bad", jarr [Json.str "undescribed-subscribed", jnat i, Json.str s!"{m}:{a}"])]
+        bads := bads ++ [jarr [Json.str "undescribed-subscribed", jnat i, Json.str s!"{m}:{a}"]]
       i := i + 1
     -- described datainfo against the runtime datatype; emitted values against the described datainfo
     i := 0
     for s in ← fldArr j "dichecks" do
       let c : DatainfoCheck := ⟨← fldStr s "m", ← fldStr s "a", ← fldBool s "client", ← fldBool s "node"⟩
       if !(datainfoAgreeB c) then
-        return Json.mkObj [("bad", jarr [Json.str "datainfo-disagrees", jnat i, Json.str s!"{c.m}:{c.a}"])]
+        let what := cond (offGrid s!"{c.m}:{c.a}")
+          "datainfo-disagrees:scaled-limit-off-grid" "datainfo-disagrees"
+        bads := bads ++ [jarr [Json.str what, jnat i, Json.str s!"{c.m}:{c.a}"]]
       i := i + 1
     i := 0
     for s in ← fldArr j "imports" do
       if !(← fldBool s "ok") then
-        return Json.mkObj [("bad", jarr [Json.str "emitted-not-importable", jnat i,
-          Json.str s!"{← fldStr s "m"}:{← fldStr s "a"}"])]
+        bads := bads ++ [jarr [Json.str "emitted-not-importable", jnat i,
+          Json.str s!"{← fldStr s "m"}:{← fldStr s "a"}"]]
       i := i + 1
-    return Json.mkObj [("bad", Json.null)]
+    return Json.mkObj [("bad", bads.head?.getD Json.null), ("bads", jarr (bads.take 200))]
   | _ => throw s!"C06: unknown verb {k}"
 
 end Frappy.Drive.C06
